@@ -606,10 +606,13 @@ fn run_local_put(p: &Plan, rep: &mut RunReport, root: &Path) {
                         Err(e) => rep.violate("C19.a", "local-put:new-xorb-broken", format!("{ctx}: exists() on the new xorb fails: {e}")),
                     }
                     rep.count("restarts_checked", 1);
+                    drop(c);
                 },
             }
+            crate::engines::session::release_lmdb(&sd);
         }
     }
+    crate::engines::session::release_lmdb(&store);
     rep.count("crash_points", snaps.len() as u64);
     rep.nontrivial = snaps.len() > 2;
     rep.signature = mix(&[3, p.seed, snaps.len() as u64, p.prior as u64]);
